@@ -178,6 +178,21 @@ def queries(h, cfg):
     ]
 
 
+def _map_frozen(cfg):
+    """the SRAM's memory map is final: nothing can be added to it behind the SRAM's back"""
+    from amaranth.lib import wiring
+
+    class Extra(wiring.Component):
+        def __init__(self):
+            super().__init__({})
+    mm = maker(cfg)().dut.wb_bus.memory_map
+    try:
+        mm.add_resource(Extra(), name=("extra",), size=1)
+    except ValueError:
+        return True
+    return False
+
+
 def _independent(cfg):
     """a never-elaborated instance accepts a new image whatever happened to other instances before"""
     from amaranth.hdl import Fragment
@@ -190,6 +205,14 @@ def _independent(cfg):
 
 
 def check(cfg, out, stats):
+    if cfg.get("init") == "default" and not _map_frozen(cfg):
+        from ..bmc import mark_violation
+        from ..e1 import cfg_key
+        mark_violation("map-frozen")
+        out.violations.append({"key": f"map-frozen@{cfg_key(cfg)}",
+                               "what": f"C15 the SRAM's memory map still accepts resources ({cfg_key(cfg)})", "query": "map-frozen",
+                               "cfg": cfg, "stimulus": [], "prefix": 0, "k": 0, "detail": {}})
+        return
     if cfg.get("other") and not _independent(cfg):
         from ..bmc import mark_violation
         from ..e1 import cfg_key
@@ -214,6 +237,8 @@ def check(cfg, out, stats):
 
 
 def replay(v):
+    if v["query"] == "map-frozen":
+        return not _map_frozen(v["cfg"])
     if v["query"] == "independent":
         return not _independent(v["cfg"])
     if v["query"] == "geometry":
